@@ -95,6 +95,28 @@ func ValueNilEdges(v ssa.Value, wantNil bool) []Edge {
 				visit(x)
 			case *ssa.MakeInterface, *ssa.ChangeInterface, *ssa.ChangeType:
 				visit(x.(ssa.Value))
+			case *ssa.Store:
+				// v spilled to a local (named result, captured variable): loads that can only see this store carry v
+				a, ok := x.Addr.(*ssa.Alloc)
+				if !ok || x.Val != v || a.Referrers() == nil {
+					continue
+				}
+				for _, ar := range *a.Referrers() {
+					ld, ok := ar.(*ssa.UnOp)
+					if !ok || ld.Op != token.MUL {
+						continue
+					}
+					vals, _ := ReachingStores(a, ld)
+					only := len(vals) > 0
+					for _, rv := range vals {
+						if rv != v {
+							only = false
+						}
+					}
+					if only {
+						visit(ld)
+					}
+				}
 			}
 		}
 	}
